@@ -32,7 +32,9 @@ SHAPES = {
     "strdollar": ["e(%(k)d, %(q)s$%(q)s)", "e(%(k)d, %(q)sa$b%(q)s)"],
     "strquote": ["e(%(k)d, %(q)s%(o)s%(q)s)"],
     "fstring": ["f%(q)s{e(%(k)d)}%(q)s"],
-    "entity": ["e(%(k)d, 1 &lt; 2)", "e(%(k)d, 1 &gt; 2 &amp;&amp; 0)".replace("&amp;&amp;", "and")],
+    "entity": ["e(%(k)d, 1 &lt; 2)", "e(%(k)d, 1 &gt; 2 &amp;&amp; 0)".replace("&amp;&amp;", "and"),
+               # numeric references, decimal and hexadecimal (digits and letters mixed, either case)
+               "e(%(k)d, 1 &#60; 2)", "e(%(k)d, 1 &#x3C; 2)", "e(%(k)d, 2 &#x3e; 1)", "e(%(k)d, 1 &#X3c; 2 &#38; 3)", "e(%(k)d, 1 &#x26; 3)"],
     "subscript": ["{%(q)sa%(q)s: {%(q)sb%(q)s: e(%(k)d)}}[%(q)sa%(q)s][%(q)sb%(q)s]"],
     "stringexpr": ["string:a${e(%(k)d)}b"],
     "pipe": ["nope | e(%(k)d)"],
